@@ -7,7 +7,6 @@ selection logic of tools/optimization.py, each against
 
 Case = one JSON object {"op": ..., arguments}; generated from `ctx.sub_rng('ext')`; `(seed, index)` replays.
 """
-import copy
 import json
 
 import numpy as np
@@ -291,8 +290,6 @@ def check_level_prog(case, r):
             bad.append(('temporary-level-not-restored', f'level {before} before the with block, {after} after it'))
     if not r.get('is_flag', True) or not 0 <= r.get('level', 0) <= 3:
         bad.append(('level-not-a-flag', f'level {r.get("level")}'))
-    for lvl, optv in []:
-        pass
     return bad
 
 
